@@ -1052,9 +1052,10 @@ ObsDeliverCommit(n) ==
     IN
     /\ "observer" \in Features /\ obs.st = "on" /\ n \in 1..Len(commits)
     /\ (IsWinner(n) \/ obs.epoch > c.baseEpoch)
-    /\ IF c.baseEpoch # obs.epoch \/ (~opt.enc /\ c.baseKs # obs.ks)
+    \* an external commit is always a PublicMessage
+    /\ IF c.baseEpoch # obs.epoch \/ ((~opt.enc \/ c.external) /\ c.baseKs # obs.ks)
        THEN /\ UNCHANGED obs /\ ObsStep("ObsDeliverCommit", args, "err:epoch")
-       ELSE IF opt.enc
+       ELSE IF opt.enc /\ ~c.external
        THEN /\ UNCHANGED obs /\ ObsStep("ObsDeliverCommit", args, "ok:ciphertext")
        ELSE IF obs.frozen
        THEN /\ UNCHANGED obs /\ ObsStep("ObsDeliverCommit", args, "err:frozen")
